@@ -177,8 +177,9 @@ func (x *Exec) multi(st *State, e ast.Expr) []Term {
 			return []Term{v, x.c().mapHas(base, k)}
 		}
 	case *ast.TypeAssertExpr:
-		x.abstractNote(e, "type assertion (havocked)")
-		return []Term{x.freshOf("typeassert", x.typeOf(e.Type)), x.c().fresh("ok", sortBool)}
+		v, ok := x.typeAssert(st, e)
+		// a failed assertion yields the zero value
+		return []Term{tIte(ok, v, x.c().zero(v.Sort, x.typeOf(e.Type))), ok}
 	case *ast.UnaryExpr:
 		if e.Op == token.ARROW {
 			x.abstractNote(e, "channel receive (havocked)")
@@ -251,6 +252,24 @@ func (x *Exec) assignStmt(st *State, s *ast.AssignStmt) {
 			vals = append(vals, x.expr(st, r))
 		}
 	}
+	// a local pointer read from a map of pointers keeps its provenance (writes through it update the map entry)
+	if len(s.Rhs) == 1 && len(s.Lhs) >= 1 {
+		if id, ok := s.Lhs[0].(*ast.Ident); ok && id.Name != "_" {
+			if obj := x.objOf(id); obj != nil {
+				delete(st.prov, obj)
+				if ie, ok := ast.Unparen(s.Rhs[0]).(*ast.IndexExpr); ok {
+					if mt, ok := types.Unalias(x.typeOf(ie.X)).Underlying().(*types.Map); ok {
+						if _, isPtr := types.Unalias(mt.Elem()).Underlying().(*types.Pointer); isPtr && x.isLvalue(ie.X) {
+							if st.prov == nil {
+								st.prov = map[types.Object]provInfo{}
+							}
+							st.prov[obj] = provInfo{mapExpr: ie.X, key: x.expr(st, ie.Index)}
+						}
+					}
+				}
+			}
+		}
+	}
 	for i, l := range s.Lhs {
 		if id, ok := l.(*ast.Ident); ok && len(s.Rhs) == len(s.Lhs) {
 			if lit, ok := ast.Unparen(s.Rhs[i]).(*ast.FuncLit); ok {
@@ -305,8 +324,20 @@ func (x *Exec) assign(st *State, lhs ast.Expr, v Term) {
 				x.unsupported(l, "no field %s", fname)
 			}
 			nv := c.updField(inner, fname, x.coerce(v, f.Sort))
-			np := c.mkPtr(base.Sort, c.ptrRef(base), nv)
-			x.assign(st, l.X, c.define("upd", np))
+			np := c.define("upd", c.mkPtr(base.Sort, c.ptrRef(base), nv))
+			x.assign(st, l.X, np)
+			if id, ok := ast.Unparen(l.X).(*ast.Ident); ok {
+				if pi, ok := st.prov[x.objOf(id)]; ok {
+					// the pointer came from a map of pointers: the pointee is shared with the map entry
+					m := x.expr(st, pi.mapExpr)
+					if m.Sort.Kind == KMap {
+						saved := st.prov
+						st.prov = nil
+						x.assign(st, pi.mapExpr, x.mapStore(m, pi.key, np))
+						st.prov = saved
+					}
+				}
+			}
 			return
 		}
 		if base.Sort.Kind != KStruct {
@@ -634,6 +665,7 @@ func (x *Exec) loop(st *State, node ast.Stmt, ord int, label string, mod map[typ
 	}
 	for k, v := range hidden {
 		x.curHidden[k] = Term{S: v}
+		x.curHidden[fmt.Sprintf("%s%d", k, ord)] = Term{S: v} // $coll0, $k0, ...: visible from inner loops
 	}
 	defer func() { x.curHidden = savedHidden }()
 
